@@ -88,6 +88,7 @@ structure Thread where
   deriving DecidableEq, Repr, Hashable
 
 inductive Ev
+  | commit (ch : Chan) (g : Gen)   -- ghost: commitSubscription installed generation g (not an external call)
   | join (ch : Chan) (g : Gen)
   | leave (ch : Chan) (g : Gen)
   | onUnsub (ch : Chan)
@@ -206,25 +207,36 @@ def afterChecks (t : Thread) : Pc :=
 
 def afterPres (t : Thread) : Pc := if t.kind = .csub then .sReply else .sCommit
 
-/-- commitSubscription reported "not committed" -/
+/-- commitSubscription reported "not committed": the client path fails with a Disconnect and runs
+the error path, `Client.Subscribe` returns the error -/
 def notCommitted (t : Thread) : Thread :=
-  if t.kind = .csub then { t with failDisc := true, pc := afterCmdFail t }
-  else { t with pc := .done, ret := .err }
+  { t with failDisc := if t.kind = .csub then true else t.failDisc,
+           pc := if t.kind = .csub then afterCmdFail t else .done,
+           ret := if t.kind = .csub then t.ret else .err }
 
-/-- the unsubscribe call returns: command ⇒ reply, server API ⇒ done, inside close ⇒ next channel -/
+/-- where an `unsubscribe` call returns to: command ⇒ reply, server API ⇒ done, inside close ⇒ next channel -/
+def unsubRetPc : Kind → Pc
+  | .cunsub => .uOut
+  | .close => .cLoop
+  | _ => .done
+
+def unsubRet (k : Kind) (r : Ret) : Ret :=
+  match k with
+  | .cunsub => r
+  | .close => r
+  | _ => .ok
+
 def unsubReturn (t : Thread) : Thread :=
-  match t.kind with
-  | .cunsub => { t with pc := .uOut }
-  | .close => { t with pc := .cLoop }
-  | _ => { t with pc := .done, ret := .ok }
+  { t with pc := unsubRetPc t.kind, ret := unsubRet t.kind t.ret }
 
-def afterRemove (_t : Thread) (c : Entry) : Pc :=
+def afterRemove (c : Entry) : Pc :=
   if c.subscribed && c.presence then .uPresRm
   else if c.joinLeave && c.subscribed then .uLeave
   else .uHubRm
 
 def afterHubRm (t : Thread) (c : Entry) : Thread :=
-  if c.subscribed then { t with pc := .uOnUnsub } else unsubReturn t
+  { t with pc := if c.subscribed then .uOnUnsub else unsubRetPc t.kind,
+           ret := if c.subscribed then t.ret else unsubRet t.kind t.ret }
 
 /-- One step of thread `t` (id `tid`) in state `s` with outcome `o`: the effects on the shared
 state and the thread's next record; `none` = the step is not enabled. -/
@@ -262,9 +274,7 @@ def stepThread (s : State) (tid : Tid) (t : Thread) (o : Outcome) : Option (List
       some ([.hubSet t.ch t.cmdGen], { t with pc := if t.kind = .csub then .sCheck2 else afterChecks t })
   | .sHubAdd, .fail =>
       if (aget s.hub t.ch).isSome then none
-      else
-        let t' := { t with failDisc := true }
-        some ([.hubSet t.ch t.cmdGen, .hubDelIf t.ch t.cmdGen], { t' with pc := afterCmdFail t' })
+      else some ([.hubSet t.ch t.cmdGen, .hubDelIf t.ch t.cmdGen], { t with failDisc := true, pc := afterCmdFail t })
   | .sCheck2, .ok =>
       if (aget s.channels t.ch).isNone ∨ s.status = .closed then
         some ([], { t with failDisc := true, pc := afterCmdFail t })
@@ -280,7 +290,8 @@ def stepThread (s : State) (tid : Tid) (t : Thread) (o : Outcome) : Option (List
             if s.status = .closed then
               some ([.chanDel t.ch], { t with capGate := e.gate, pc := .sRbHub })
             else
-              some ([.chanSet t.ch { gen := t.cmdGen, subscribed := true, presence := t.opts.presence,
+              some ([.log (.commit t.ch t.cmdGen),
+                     .chanSet t.ch { gen := t.cmdGen, subscribed := true, presence := t.opts.presence,
                                      joinLeave := t.opts.joinLeave, serverSide := t.kind = .ssub, gate := none }],
                     { t with capGate := e.gate, pc := .sCloseGate })
           else some ([], { t with capGate := none, pc := .sRbHub })
@@ -291,11 +302,10 @@ def stepThread (s : State) (tid : Tid) (t : Thread) (o : Outcome) : Option (List
   | .sRbClose, .ok => some (gateEff t.capGate, notCommitted { t with capGate := none })
   -- close(subscribingCh) after a successful commit
   | .sCloseGate, .ok =>
-      let nxt : Thread :=
-        if t.kind = .csub then
-          (if t.opts.joinLeave then { t with pc := .sJoin } else { t with pc := .done, ret := .ok })
-        else { t with pc := .sDpf }
-      some (gateEff t.capGate, { nxt with capGate := none })
+      some (gateEff t.capGate,
+        { t with capGate := none,
+                 pc := if t.kind = .csub then (if t.opts.joinLeave then .sJoin else .done) else .sDpf,
+                 ret := if t.kind = .csub ∧ ¬ t.opts.joinLeave then .ok else t.ret })
   | .sDpf, .ok => some ([], { t with pc := .sPush })
   -- Client.Subscribe writes the subscribe push; enqueue fails once the writer is closed
   | .sPush, .ok =>
@@ -314,11 +324,10 @@ def stepThread (s : State) (tid : Tid) (t : Thread) (o : Outcome) : Option (List
       | none => some ([], { t with capGate := none, pc := .sErrHub })
   | .sErrHub, .ok => some ([.hubDelIf t.ch t.resGen], { t with pc := .sErrClose })
   | .sErrClose, .ok =>
-      let t' := { t with capGate := none }
       if t.kind = .csub then
-        if t.failDisc then some (gateEff t.capGate ++ [.spawnClose], { t' with pc := .done, ret := .err })
-        else some (gateEff t.capGate, { t' with pc := .sErrOut })
-      else some (gateEff t.capGate, { t' with pc := .done, ret := .err })
+        if t.failDisc then some (gateEff t.capGate ++ [.spawnClose], { t with capGate := none, pc := .done, ret := .err })
+        else some (gateEff t.capGate, { t with capGate := none, pc := .sErrOut })
+      else some (gateEff t.capGate, { t with capGate := none, pc := .done, ret := .err })
   | .sErrOut, .ok => some ([.log (.replyErr tid)], { t with pc := .done, ret := .err })
   -- Client.Unsubscribe status check
   | .uStatus, .ok =>
@@ -359,14 +368,17 @@ def stepThread (s : State) (tid : Tid) (t : Thread) (o : Outcome) : Option (List
         match aget s.channels t.ch with
         | some e =>
             if e.gen = t.target then
-              some (gateEff e.gate ++ [.chanDel t.ch], { t with pc := afterRemove t c })
+              some (gateEff e.gate ++ [.chanDel t.ch], { t with pc := afterRemove c })
             else some ([], unsubReturn t)
         | none => some ([], unsubReturn t)
   | .uPresRm, .ok =>
       match t.ctx with
       | none => none
       | some c => some ([.presDel t.ch], { t with pc := if c.joinLeave && c.subscribed then .uLeave else .uHubRm })
-  | .uLeave, .ok => some ([.log (.leave t.ch t.target)], { t with pc := .uHubRm })
+  | .uLeave, .ok =>
+      match t.ctx with
+      | none => none
+      | some c => some ([.log (.leave t.ch c.gen)], { t with pc := .uHubRm })
   | .uHubRm, .ok =>
       match t.ctx with
       | none => none
@@ -384,7 +396,9 @@ def stepThread (s : State) (tid : Tid) (t : Thread) (o : Outcome) : Option (List
   | .cWriter, .ok => some ([.writerClose], { t with pc := .cTClose })
   | .cTClose, .ok => some ([], { t with pc := .cLoop })
   | .cLoop, .pick ch =>
-      if ch ∈ t.pending then some ([], { t with pending := sdel t.pending ch, ch := ch, pc := .uSnap }) else none
+      if ch ∈ t.pending then
+        some ([], { t with pending := sdel t.pending ch, ch := ch, pc := .uSnap, ctx := none, target := 0, capGate := none })
+      else none
   | .cLoop, .ok =>
       if t.pending.isEmpty then some ([], { t with pc := if t.prevConnected then .cOnDisc else .cExit }) else none
   | .cOnDisc, .ok => some ([.log .onDisconnect], { t with pc := .cExit })
